@@ -210,7 +210,9 @@ pub fn find_module(
 
     // First, check for a neighboring file with a matching name.
     let extension = "koto";
-    let result = search_folder.join(module_name).with_extension(extension);
+    // Note that `with_extension` can't be used here, it would replace a dotted suffix of the
+    // module name (`utils.v2` -> `utils.koto`).
+    let result = search_folder.join(format!("{module_name}.{extension}"));
     if result.exists() {
         // The path is used as the key of the loader's and the runtime's module caches,
         // so it has to be the same for every spelling of the module's location
